@@ -708,4 +708,253 @@ theorem workflow_unknown_in_document (hF : Foreign cfg workflowKeys pre post kn)
   exact hins
 
 end
+/-! ### `services.<id>` and `container.credentials` -/
+
+theorem isExprAssigned_empty : AL.Yaml.isExprAssigned "" = false := by decide
+
+theorem mayParseExpression_mapNode (tag : String) (l c : Nat) (ps : List (Node × Node)) :
+    mayParseExpression (mapNode tag l c ps) = none := by
+  simp only [mayParseExpression, mapNode, Node.tag, Node.value, isExprAssigned_empty]
+  by_cases h : tag ≠ "!!str" <;> simp [h]
+
+/-- `services:` — the value of one service replaced -/
+theorem parseServices_ext (cfg : Cfg) (tag : String) (l c : Nat) (pre post : List (Node × Node)) (kn v v' : Node) (es : List PErr)
+    (hfirst : ∀ q ∈ pre, keyId cfg false q.1 ≠ keyId cfg false kn)
+    (h : Ext (parseContainer cfg "services" (parseString kn false).1.pos) v v' es) :
+    Ext (parseServices cfg) (mapNode tag l c (pre ++ (kn, v) :: post)) (mapNode tag l c (pre ++ (kn, v') :: post)) es := by
+  have := Sect.value_ext (mapSect fun s => let c := parseContainer cfg "services" s.key.pos s.val; ((⟨s.key, c.1⟩ : Service), c.2))
+    cfg (sectionWhat "services") tag l c false false pre post kn v v' es
+    (by
+      intro s
+      simp only [mapSect, plain, h.1]
+      exact ⟨trivial, h.2⟩)
+    hfirst
+  simp only [Ext, mapSect_run] at this
+  simp only [Ext, parseServices, mayParseExpression_mapNode, parseSectionMapping]
+  have hpos : ∀ ps, (mapNode tag l c ps).pos = ⟨l, c⟩ := fun _ => rfl
+  simp only [hpos]
+  exact ⟨by rw [this.1], this.2⟩
+
+theorem parseJob_services_ext (cfg : Cfg) (id : Str) (tag : String) (l c : Nat) (pre post : List (Node × Node)) (kn v v' : Node)
+    (es : List PErr) (hk : AtJobKey cfg "services" pre kn) (h : Ext (parseServices cfg) v v' es) :
+    Ext (parseJob cfg id) (mapNode tag l c (pre ++ (kn, v) :: post)) (mapNode tag l c (pre ++ (kn, v') :: post)) es :=
+  parseJob_value_ext cfg id tag l c pre post kn v v' es hk.good (by rw [hk.value]; exact hk.first)
+    (by intro s; simp only [jobKey, hk.value, h.1]; exact ⟨trivial, h.2⟩)
+
+section
+variable (cfg : Cfg) (tW tJ tK tP tS : String) (lW cW lJ cJ lK cK lP cP lS cS : Nat)
+  (preW postW preJ postJ preK postK preS postS pre post : List (Node × Node)) (kJobs kJob kSec kSvc kn vn : Node)
+
+/-- **an unknown key in a service's container, whole file** (`jobs.<id>.services.<svc>.<key>`) -/
+theorem service_unknown_in_document (hp : JobPath cfg preW preJ kJobs kJob)
+    (hSec : AtJobKey cfg "services" preK kSec)
+    (hSvcFirst : ∀ q ∈ preS, keyId cfg false q.1 ≠ keyId cfg false kSvc)
+    (hF : Foreign cfg containerKeys pre post kn) :
+    AddsExactly cfg
+      (docWithJobSection tW tJ tK lW cW lJ cJ lK cK preW postW preJ postJ preK postK kJobs kJob kSec
+        (mapNode tS lS cS (preS ++ (kSvc, mapNode tP lP cP (pre ++ post)) :: postS)))
+      (docWithJobSection tW tJ tK lW cW lJ cJ lK cK preW postW preJ postJ preK postK kJobs kJob kSec
+        (mapNode tS lS cS (preS ++ (kSvc, mapNode tP lP cP (pre ++ (kn, vn) :: post)) :: postS)))
+      (unexpectedAt kn "services" containerKeys) := by
+  have e0 : Ext (parseContainer cfg "services" (parseString kSvc false).1.pos) (mapNode tP lP cP (pre ++ post))
+      (mapNode tP lP cP (pre ++ (kn, vn) :: post)) [unexpectedAt kn "services" containerKeys] :=
+    container_unknown cfg tP lP cP pre post kn vn "services" _ hF
+  have e1 := parseServices_ext cfg tS lS cS preS postS kSvc _ _ _ hSvcFirst e0
+  have e2 := parseJob_services_ext cfg (parseString kJob false).1 tK lK cK preK postK kSec _ _ _ hSec e1
+  exact job_ext_in_document cfg tW tJ lW cW lJ cJ preW postW preJ postJ kJobs kJob _ _ _ hp.jobs hp.jobsV hp.jobsFirst hp.jobFirst e2
+
+end
+
+/-- a container — the value of its `credentials:` key replaced (the "both username and password" check looks at the parsed
+credentials only, which are the same) -/
+theorem parseContainer_credentials_ext (cfg : Cfg) (sec : String) (pos : Pos) (tag : String) (l c : Nat)
+    (pre post : List (Node × Node)) (kn v v' : Node) (es : List PErr) (hk : AtJobKey cfg "credentials" pre kn)
+    (h : Ext (fun n => (plain credentialsKey { pos := (parseString kn false).1.pos }).run cfg (sectionWhat "credentials") n false true) v v' es) :
+    Ext (parseContainer cfg sec pos) (mapNode tag l c (pre ++ (kn, v) :: post)) (mapNode tag l c (pre ++ (kn, v') :: post)) es := by
+  have hid : keyId cfg true kn = "credentials" := by rw [keyId_cs cfg kn hk.good, hk.value]
+  have := Sect.value_ext (plain (containerKey cfg sec) { pos := pos }) cfg (sectionWhat sec) tag l c false true pre post kn v v' es
+    (by
+      intro s
+      have h1 := h.1
+      have h2 := h.2
+      simp only [plain_run] at h1 h2
+      simp only [hid, plain, containerKey, parseSectionMapping, h1]
+      by_cases hc : ((loop credentialsKey { pos := (parseString kn false).1.pos }
+          (parseMapping cfg (sectionWhat "credentials") v false true).1).1.username.isNone ||
+          (loop credentialsKey { pos := (parseString kn false).1.pos }
+          (parseMapping cfg (sectionWhat "credentials") v false true).1).1.password.isNone) = true
+      · simp only [hc, if_true]
+        refine ⟨trivial, ?_⟩
+        rw [List.perm_iff_count]
+        intro a
+        have := (List.perm_iff_count.1 h2) a
+        simp only [List.count_append] at this ⊢
+        omega
+      · simp only [hc, Bool.false_eq_true, if_false]
+        exact ⟨trivial, h2⟩)
+    (by intro q hq; rw [hid]; exact hk.first q hq)
+  simp only [Ext, parseContainer_eq_run]
+  exact this
+
+theorem parseJob_container_value_ext (cfg : Cfg) (id : Str) (tag : String) (l c : Nat) (pre post : List (Node × Node)) (kn v v' : Node)
+    (es : List PErr) (hk : AtJobKey cfg "container" pre kn)
+    (h : Ext (parseContainer cfg "container" (parseString kn false).1.pos) v v' es) :
+    Ext (parseJob cfg id) (mapNode tag l c (pre ++ (kn, v) :: post)) (mapNode tag l c (pre ++ (kn, v') :: post)) es :=
+  parseJob_container_ext cfg id tag l c pre post kn v v' es hk h
+
+section
+variable (cfg : Cfg) (tW tJ tK tP tC : String) (lW cW lJ cJ lK cK lP cP lC cC : Nat)
+  (preW postW preJ postJ preK postK preC postC pre post : List (Node × Node)) (kJobs kJob kSec kCred kn vn : Node)
+
+/-- **an unknown key in `container.credentials`, whole file** (four levels below the root) -/
+theorem credentials_unknown_in_document (hp : JobPath cfg preW preJ kJobs kJob)
+    (hSec : AtJobKey cfg "container" preK kSec) (hCred : AtJobKey cfg "credentials" preC kCred)
+    (hF : Foreign cfg ["username", "password"] pre post kn) :
+    AddsExactly cfg
+      (docWithJobSection tW tJ tK lW cW lJ cJ lK cK preW postW preJ postJ preK postK kJobs kJob kSec
+        (mapNode tC lC cC (preC ++ (kCred, mapNode tP lP cP (pre ++ post)) :: postC)))
+      (docWithJobSection tW tJ tK lW cW lJ cJ lK cK preW postW preJ postJ preK postK kJobs kJob kSec
+        (mapNode tC lC cC (preC ++ (kCred, mapNode tP lP cP (pre ++ (kn, vn) :: post)) :: postC)))
+      (unexpectedAt kn "credentials" ["username", "password"]) := by
+  have e0 : Ext (fun n => (plain credentialsKey { pos := (parseString kCred false).1.pos }).run cfg (sectionWhat "credentials") n false true)
+      (mapNode tP lP cP (pre ++ post)) (mapNode tP lP cP (pre ++ (kn, vn) :: post)) [_] :=
+    credentials_unknown cfg tP lP cP pre post kn vn _ hF
+  have e1 := parseContainer_credentials_ext cfg "container" (parseString kSec false).1.pos tC lC cC preC postC kCred _ _ _ hCred e0
+  have e2 := parseJob_container_ext cfg (parseString kJob false).1 tK lK cK preK postK kSec _ _ _ hSec e1
+  exact job_ext_in_document cfg tW tJ lW cW lJ cJ preW postW preJ postJ kJobs kJob _ _ _ hp.jobs hp.jobsV hp.jobsFirst hp.jobFirst e2
+
+end
+
+/-! ### `on.workflow_dispatch.inputs.<id>` -/
+
+/-- the `inputs:` mapping of `workflow_dispatch` — the value of one input replaced -/
+theorem dispatchInputs_ext (cfg : Cfg) (tag : String) (l c : Nat) (pre post : List (Node × Node)) (kn v v' : Node) (es : List PErr)
+    (hfirst : ∀ q ∈ pre, keyId cfg false q.1 ≠ keyId cfg false kn)
+    (h : Ext (fun n => dispatchInput cfg ⟨keyId cfg false kn, (parseString kn false).1, n⟩) v v' es) :
+    Ext (fun n => (mapSect (dispatchInput cfg)).run cfg (sectionWhat "inputs") n true false)
+      (mapNode tag l c (pre ++ (kn, v) :: post)) (mapNode tag l c (pre ++ (kn, v') :: post)) es :=
+  Sect.value_ext (mapSect (dispatchInput cfg)) cfg (sectionWhat "inputs") tag l c true false pre post kn v v' es
+    (by
+      intro s
+      simp only [mapSect, plain, h.1]
+      exact ⟨trivial, h.2⟩)
+    hfirst
+
+/-- `workflow_dispatch:` — the value of its `inputs:` key replaced -/
+theorem parseDispatch_inputs_ext (cfg : Cfg) (pos : Pos) (tag : String) (l c : Nat) (pre post : List (Node × Node)) (kn v v' : Node)
+    (es : List PErr) (hk : AtJobKey cfg "inputs" pre kn)
+    (h : Ext (fun n => (mapSect (dispatchInput cfg)).run cfg (sectionWhat "inputs") n true false) v v' es) :
+    Ext (parseWorkflowDispatchEvent cfg pos) (mapNode tag l c (pre ++ (kn, v) :: post)) (mapNode tag l c (pre ++ (kn, v') :: post)) es := by
+  have hid : keyId cfg true kn = "inputs" := by rw [keyId_cs cfg kn hk.good, hk.value]
+  have := Sect.value_ext (plain (dispatchStep cfg) none) cfg (sectionWhat "workflow_dispatch") tag l c true true pre post kn v v' es
+    (by
+      intro s
+      have h1 := h.1
+      have h2 := h.2
+      simp only [mapSect_run] at h1 h2
+      simp only [hid, plain, dispatchStep, parseSectionMapping, ne_eq, not_true_eq_false, if_false, h1]
+      exact ⟨trivial, h2⟩)
+    (by intro q hq; rw [hid]; exact hk.first q hq)
+  simp only [Ext, parseWorkflowDispatchEvent_eq_run]
+  exact ⟨by rw [this.1], this.2⟩
+
+section
+variable (cfg : Cfg) (tW tO tE tI tP : String) (lW cW lO cO lE cE lI cI lP cP : Nat)
+  (preW postW preO postO preE postE preI postI pre post : List (Node × Node)) (kOn kEv kInputs kIn kn vn : Node)
+
+/-- **an unknown key in an input of `workflow_dispatch`, whole file** (`on.workflow_dispatch.inputs.<id>.<key>`, five levels
+below the root) -/
+theorem dispatchInput_unknown_in_document (hOn : AtJobKey cfg "on" preW kOn) (hEv : AtJobKey cfg "workflow_dispatch" preO kEv)
+    (hInputs : AtJobKey cfg "inputs" preE kInputs)
+    (hInFirst : ∀ q ∈ preI, keyId cfg false q.1 ≠ keyId cfg false kIn)
+    (hF : Foreign cfg dispatchAttrKeys pre post kn) :
+    AddsExactly cfg
+      (docWithEvent tW tO lW cW lO cO preW postW preO postO kOn kEv
+        (mapNode tE lE cE (preE ++ (kInputs, mapNode tI lI cI (preI ++ (kIn, mapNode tP lP cP (pre ++ post)) :: postI)) :: postE)))
+      (docWithEvent tW tO lW cW lO cO preW postW preO postO kOn kEv
+        (mapNode tE lE cE (preE ++ (kInputs, mapNode tI lI cI (preI ++ (kIn, mapNode tP lP cP (pre ++ (kn, vn) :: post)) :: postI)) :: postE)))
+      (unexpectedAt kn "inputs" ["description", "required", "default"]) := by
+  have e0 : Ext (fun n => dispatchInput cfg ⟨keyId cfg false kIn, (parseString kIn false).1, n⟩) (mapNode tP lP cP (pre ++ post))
+      (mapNode tP lP cP (pre ++ (kn, vn) :: post)) [_] := dispatchInput_unknown cfg tP lP cP pre post kn vn _ _ hF
+  have e1 := dispatchInputs_ext cfg tI lI cI preI postI kIn _ _ _ hInFirst e0
+  have e2 := parseDispatch_inputs_ext cfg (parseString kEv false).1.pos tE lE cE preE postE kInputs _ _ _ hInputs e1
+  exact event_ext_in_document cfg tW tO lW cW lO cO preW postW preO postO kOn kEv hOn hEv.good
+    (by rw [hEv.value]; exact hEv.first)
+    (mapNode tE lE cE (preE ++ (kInputs, mapNode tI lI cI (preI ++ (kIn, mapNode tP lP cP (pre ++ post)) :: postI)) :: postE))
+    (mapNode tE lE cE (preE ++ (kInputs, mapNode tI lI cI (preI ++ (kIn, mapNode tP lP cP (pre ++ (kn, vn) :: post)) :: postI)) :: postE)) [_]
+    (by intro s; simp only [eventOfKey, hEv.value, e2.1]; exact ⟨trivial, e2.2⟩)
+
+end
+
+/-! ### `on.workflow_call.inputs.<id>` -/
+
+/-- `callInputs` is the loop that appends one parsed input per key -/
+theorem callInputs_eq_loop (cfg : Cfg) (kvs : List KV) : ∀ acc : List CallInput,
+    loop (fun st kv => (st ++ [(callInput cfg kv).1], (callInput cfg kv).2)) acc kvs =
+      (acc ++ (callInputs cfg kvs).1, (callInputs cfg kvs).2) := by
+  induction kvs with
+  | nil => intro acc; simp [callInputs]
+  | cons kv rest ih => intro acc; rw [loop_cons, ih]; simp [callInputs]
+
+/-- the `inputs:` mapping of `workflow_call` — the value of one input replaced -/
+theorem callInputs_ext (cfg : Cfg) (tag : String) (l c : Nat) (pre post : List (Node × Node)) (kn v v' : Node) (es : List PErr)
+    (hfirst : ∀ q ∈ pre, keyId cfg false q.1 ≠ keyId cfg false kn)
+    (h : Ext (fun n => callInput cfg ⟨keyId cfg false kn, (parseString kn false).1, n⟩) v v' es) :
+    Ext (fun n => (plain (fun (st : List CallInput) kv => (st ++ [(callInput cfg kv).1], (callInput cfg kv).2)) []).run cfg
+        (sectionWhat "inputs") n true false)
+      (mapNode tag l c (pre ++ (kn, v) :: post)) (mapNode tag l c (pre ++ (kn, v') :: post)) es :=
+  Sect.value_ext (plain (fun (st : List CallInput) kv => (st ++ [(callInput cfg kv).1], (callInput cfg kv).2)) []) cfg
+    (sectionWhat "inputs") tag l c true false pre post kn v v' es
+    (by
+      intro s
+      simp only [plain, h.1]
+      exact ⟨trivial, h.2⟩)
+    hfirst
+
+/-- `workflow_call:` — the value of its `inputs:` key replaced -/
+theorem parseCall_inputs_ext (cfg : Cfg) (pos : Pos) (tag : String) (l c : Nat) (pre post : List (Node × Node)) (kn v v' : Node)
+    (es : List PErr) (hk : AtJobKey cfg "inputs" pre kn)
+    (h : Ext (fun n => (plain (fun (st : List CallInput) kv => (st ++ [(callInput cfg kv).1], (callInput cfg kv).2)) []).run cfg
+        (sectionWhat "inputs") n true false) v v' es) :
+    Ext (parseWorkflowCallEvent cfg pos) (mapNode tag l c (pre ++ (kn, v) :: post)) (mapNode tag l c (pre ++ (kn, v') :: post)) es := by
+  have hid : keyId cfg true kn = "inputs" := by rw [keyId_cs cfg kn hk.good, hk.value]
+  have := Sect.value_ext (plain (callEventKey cfg) {}) cfg (sectionWhat "workflow_call") tag l c true true pre post kn v v' es
+    (by
+      intro s
+      have h1 := h.1
+      have h2 := h.2
+      simp only [plain_run, callInputs_eq_loop, List.nil_append] at h1 h2
+      simp only [hid, plain, callEventKey, parseSectionMapping, h1]
+      exact ⟨trivial, h2⟩)
+    (by intro q hq; rw [hid]; exact hk.first q hq)
+  simp only [Ext, parseWorkflowCallEvent_eq_run]
+  exact ⟨by rw [this.1], this.2⟩
+
+section
+variable (cfg : Cfg) (tW tO tE tI tP : String) (lW cW lO cO lE cE lI cI lP cP : Nat)
+  (preW postW preO postO preE postE preI postI pre post : List (Node × Node)) (kOn kEv kInputs kIn kn vn : Node)
+
+/-- **an unknown key in an input of `workflow_call`, whole file** (`on.workflow_call.inputs.<id>.<key>`) -/
+theorem callInput_unknown_in_document (hOn : AtJobKey cfg "on" preW kOn) (hEv : AtJobKey cfg "workflow_call" preO kEv)
+    (hInputs : AtJobKey cfg "inputs" preE kInputs)
+    (hInFirst : ∀ q ∈ preI, keyId cfg false q.1 ≠ keyId cfg false kIn)
+    (hF : Foreign cfg ["description", "required", "default", "type"] pre post kn) :
+    AddsExactly cfg
+      (docWithEvent tW tO lW cW lO cO preW postW preO postO kOn kEv
+        (mapNode tE lE cE (preE ++ (kInputs, mapNode tI lI cI (preI ++ (kIn, mapNode tP lP cP (pre ++ post)) :: postI)) :: postE)))
+      (docWithEvent tW tO lW cW lO cO preW postW preO postO kOn kEv
+        (mapNode tE lE cE (preE ++ (kInputs, mapNode tI lI cI (preI ++ (kIn, mapNode tP lP cP (pre ++ (kn, vn) :: post)) :: postI)) :: postE)))
+      (unexpectedAt kn "inputs at workflow_call event" ["description", "required", "default", "type"]) := by
+  have e0 : Ext (fun n => callInput cfg ⟨keyId cfg false kIn, (parseString kIn false).1, n⟩) (mapNode tP lP cP (pre ++ post))
+      (mapNode tP lP cP (pre ++ (kn, vn) :: post)) [_] := callInput_unknown cfg tP lP cP pre post kn vn _ _ hF
+  have e1 := callInputs_ext cfg tI lI cI preI postI kIn _ _ _ hInFirst e0
+  have e2 := parseCall_inputs_ext cfg (parseString kEv false).1.pos tE lE cE preE postE kInputs _ _ _ hInputs e1
+  exact event_ext_in_document cfg tW tO lW cW lO cO preW postW preO postO kOn kEv hOn hEv.good
+    (by rw [hEv.value]; exact hEv.first)
+    (mapNode tE lE cE (preE ++ (kInputs, mapNode tI lI cI (preI ++ (kIn, mapNode tP lP cP (pre ++ post)) :: postI)) :: postE))
+    (mapNode tE lE cE (preE ++ (kInputs, mapNode tI lI cI (preI ++ (kIn, mapNode tP lP cP (pre ++ (kn, vn) :: post)) :: postI)) :: postE)) [_]
+    (by intro s; simp only [eventOfKey, hEv.value, e2.1]; exact ⟨trivial, e2.2⟩)
+
+end
+
 end AL.C13D
